@@ -155,3 +155,9 @@ package utils
 //@     invariant -1 <= rangeindex && rangeindex < len(a) && len(a) == len(b)
 //@     invariant forall(k, 0, rangeindex+1, eqFold(a[k], b[k]))
 //@ end
+
+//@ func TeeErrorf
+//@   props C02 C15 C18
+//@   ensures result != nil
+//@   pure
+//@ end
